@@ -356,6 +356,29 @@ func genSessions(c *lib.Ctx, rng *rand.Rand) []sessIn {
 		a := sessAssets[i%4]
 		add(sessIn{Kind: "ato", Asset: a.path, MPD: a.mpd, Cfg: cfgIn{Mode: []string{"number", "tlt"}[i%2], Snr: -1, Tsbd: -1, AtoMS: ato}, NowMS: 10000 + int64(i)*1000, Test: true, Events: steps(3)})
 	}
+	// availability time offsets whose product with 1000 is not exact in float64 (1.001*1000 =
+	// 1000.9999999999999): the session loop rounds (end-ato)*1000 up, the $Time$ address lookup uses
+	// int(ato*1000); the two must still agree on the segment
+	inexact := []struct {
+		ai  int
+		ato int64
+	}{{0, 1001}, {0, 1003}, {2, 2002}, {0, 299}, {1, 570}, {3, 1007}, {2, 7001}, {4, 3003}, {0, 1999}, {5, 1013}}
+	for i, x := range inexact {
+		modes := []string{"tlt"}
+		if c.Thorough() || i%4 == 0 {
+			modes = append(modes, "number")
+		}
+		if i >= 6 && !c.Thorough() {
+			break
+		}
+		for mi, mode := range modes {
+			for k := 0; k < mult; k++ {
+				a := sessAssets[x.ai]
+				add(sessIn{Kind: "ato-inexact", Asset: a.path, MPD: a.mpd, Cfg: cfgIn{Mode: mode, Snr: -1, Tsbd: -1, AtoMS: x.ato},
+					NowMS: 20000 + int64(i)*1003 + int64(k)*7919, Test: true, Events: steps(3 + (i+mi+k)%3), Streams: (i+k)%2 == 1})
+			}
+		}
+	}
 	// 7. findings stream: configurations where the unchanged code is expected to fail
 	w := sessAssets[6]
 	//   (a) 29.97 fps: 8*60060/30000 s * 1000 is 16015.999999999998 in float64; since fix f4e8dbe the
